@@ -305,8 +305,29 @@ def classify_unit(rec, r, meta, base, changed, text):
                 failed.append({"function": f["function"], "where": f["function"], "kind": "unknown", "msg": "function not verified", "gen_line": None, "text": "", "verifier": r.get("stderr", "")[-3000:]})
     scope = rec.get("clause_scope") or {}
     if scope:
+        def _clause_text(x):
+            """the source text of the clause the verifier marks as failed (`failed this postcondition` / `failed precondition` /
+            `failed this invariant` label, else the primary `^^^` marker): the context lines a rendered diagnostic shows around it
+            belong to OTHER clauses and must not decide whose clause failed"""
+            lines = (x.get("verifier") or "").splitlines()
+            def src_of(k):
+                # the source line a marker line refers to is the nearest line above it that carries a line number
+                for j in range(k - 1, max(-1, k - 6), -1):
+                    if re.match(r"\s*\d+\s*\|", lines[j]):
+                        return re.sub(r"^\s*\d+\s*\|", "", lines[j])
+                return ""
+            for k, l in enumerate(lines):
+                if re.search(r"failed (this postcondition|precondition|this invariant)", l):
+                    return src_of(k)
+            for k, l in enumerate(lines):
+                if re.match(r"\s*\|\s*\^+", l):
+                    return src_of(k)
+            return ""
+
         def _hit(x, frags):
-            return any(frag in (x.get("verifier", "") + x.get("text", "")) for frag in frags)
+            ct = _clause_text(x)
+            hay = ct if ct.strip() else (x.get("verifier", "") + x.get("text", ""))
+            return any(frag in hay for frag in frags)
         if scope.get("only"):
             inside = [x for x in failed if _hit(x, scope["only"])]
         else:
